@@ -88,12 +88,37 @@ class SymNP:
         n = self.prod(shape)
         return SymArray(n, 1, dtype, origin=('zeros', tuple(shape)))
 
+    def array(self, values, dtype=None, **kw):
+        """np.array of (possibly symbolic) integers: kept as a typed list; .tobytes() gives raw bytes in HOST byte order."""
+        vals = list(values) if isinstance(values, list | tuple) else None
+        if vals is None or not any(isinstance(v, R) and not v.is_const() for v in vals):
+            return np.array(values, dtype=dtype, **kw)
+        return SymRawInts(vals, np.dtype(dtype).name if dtype is not None else 'int64')
+
     def vstack(self, rows):
         out = np.empty((len(rows), len(rows[0])), dtype=object)
         for i, r in enumerate(rows):
             for j, v in enumerate(r):
                 out[i, j] = v
         return out
+
+
+class SymRawInts:
+    """A numpy integer array with symbolic elements; its bytes are in the byte order of the host, whatever the file's is."""
+
+    def __init__(self, vals, dtype):
+        self.vals, self.dtype = vals, dtype
+
+    def tobytes(self):
+        return SymHostBytes(self.vals, self.dtype)
+
+    def __len__(self):
+        return len(self.vals)
+
+
+class SymHostBytes:
+    def __init__(self, vals, dtype):
+        self.vals, self.dtype = vals, dtype
 
 
 class SymBuffer2:
